@@ -31,6 +31,9 @@ Rec(s) == hist' = IF WithHist THEN Append(hist, s @@ [r |-> last', fused |-> fus
 FC == {x \in {0, Base - 50, Base - 1, Base, Avail - 1, Avail, Avail + 1} : x >= 0}
 PC == {0, 49, 50}
 
+\* `derived`: what the delivered block carries in the fields the hash does not cover and the node derives itself
+\* (base plasma, total plasma): nothing there may change the verdict
+Derived == {"asComputed", "baseOne", "baseHuge", "totalHuge", "totalZero"}
 Submit(fc, pc, genuine) ==
   /\ Len(pooled) < 2
   /\ IF Accepts(fc, pc, genuine) THEN pooled' = Append(pooled, fc) /\ last' = "accepted"
